@@ -64,7 +64,14 @@ func genC08(seed uint64, run int, tier string) Scenario {
 				mode = "late"
 			}
 		}
-		rep := peer.NCReply{Mode: mode, Payload: fmt.Sprintf(`<rpc-reply xmlns="urn:ietf:params:xml:ns:netconf:base:1.0" message-id="{MID}"><data><token>reply-%d-%s</token><descr>%s</descr></data></rpc-reply>`, i, word(r, lower, 4, 8), word(r, lower+"  \n", 0, 24))}
+		startTag := `<rpc-reply xmlns="urn:ietf:params:xml:ns:netconf:base:1.0"`
+		if r.IntN(6) == 0 {
+			// namespace declarations in front of the message-id attribute
+			for k := between(r, 3, 8); k > 0; k-- {
+				startTag += fmt.Sprintf(` xmlns:%s="urn:example:params:xml:ns:yang:%s"`, word(r, lower, 2, 5), word(r, lower+"-", 10, 40))
+			}
+		}
+		rep := peer.NCReply{Mode: mode, Payload: fmt.Sprintf(startTag+` message-id="{MID}"><data><token>reply-%d-%s</token><descr>%s</descr></data></rpc-reply>`, i, word(r, lower, 4, 8), word(r, lower+"  \n", 0, 24))}
 		if mode == "late" {
 			rep.DelayUS = sc.TimeoutOpsUS * int64(between(r, 15, 30)) / 10
 		}
